@@ -29,6 +29,16 @@ func c04(c *Ctx) {
 	// occupies exactly n bytes, whatever state its maker may hold (otherwise writePacket pads after the payload)
 	c01Stuffing(c, ck)
 	c04ExactFill(c)
+	// "consistent under an independent decoder": what writePacket emits is read back field for field by parsePacket (header
+	// fields masked to their widths: an oversize PID or counter must not spill into neighbouring flags) — the whole-packet
+	// joints of C01; and table packets always come out of writePacket, never from patched cached bytes (rules 'current' of C17)
+	ckj := layout.NewBits(c.P)
+	ckj.A3(r, c01Joints(c))
+	ckj.A3(r, c11Pairs(c)[:1])
+	for _, d := range ckj.IP.Diag {
+		r.Unknown("A0", "diag/joints/"+d, "", d)
+	}
+	muxstate.Current(c.P, r)
 	ck.ReportAPI(r)
 	for _, d := range ck.IP.Diag {
 		r.Unknown("A0", "diag/"+d, "", d)
